@@ -42,6 +42,7 @@ type State struct {
 	clockFrozen bool
 	choiceSeq   int
 	hseq        int // number of harness tape entries consumed
+	conc        map[*Term]uint64 // terms already case-split to a concrete value on this path (immutable map)
 }
 
 type pendingGo struct {
@@ -51,7 +52,7 @@ type pendingGo struct {
 
 func (st *State) clone() *State {
 	n := &State{root: st.root, cur: st.cur, steps: st.steps, depthID: st.depthID + 1, clockN: st.clockN,
-		locks: st.locks, clockLast: st.clockLast, clockFrozen: st.clockFrozen, choiceSeq: st.choiceSeq, hseq: st.hseq}
+		locks: st.locks, clockLast: st.clockLast, clockFrozen: st.clockFrozen, choiceSeq: st.choiceSeq, hseq: st.hseq, conc: st.conc}
 	n.heap = make(map[int]*Object, len(st.heap)+8)
 	for k, v := range st.heap {
 		n.heap[k] = v
